@@ -1,6 +1,4 @@
 """C32 -- matrix functions (expm, logm, sqrtm, powm, cosm, sinm) are mutually consistent."""
-from fractions import Fraction
-
 from .. import exact
 from ..core import R, HarnessError, time_limit, CaseTimeout, in_repo_frame
 
@@ -12,9 +10,10 @@ KMAX = 64          # bound on cond_inf(S) = ||S||_inf * ||S^-1||_inf of the gene
 RULE = ("Cases = (operation, precision p in 30..200, matrix A = S B S^-1 of size 1..6) constructed, never filtered: S is an "
         "integer unimodular matrix (signed permutation followed by up to 2n elementary row operations with multipliers "
         "+-1, +-2, kept at cond_inf(S) <= 64; identity for the diagonal class, upper triangular for the triangular class), "
-        "S^-1 is its exact integer inverse; B is diagonal with dyadic entries m/2^e (e <= 6; real, complex, or real 2x2 "
-        "blocks [[a,-b],[b,a]] carrying a conjugate pair), |Re|,|Im| <= 8, spectrum classes generic / repeated / clustered "
-        "/ scalar / small / large / zero matrix / negative-real determinant (sqrtm rotation path); for logm, sqrtm and "
+        "S^-1 is its exact integer inverse; B is diagonal with dyadic entries m/2^e (e <= 6, up to 24 with numerators <= 64 "
+        "in the class small; real, complex, or real 2x2 blocks [[a,-b],[b,a]] carrying a conjugate pair), |Re|,|Im| <= 8, "
+        "spectrum classes generic / repeated / clustered / scalar / small / large / zero matrix / exactly negative-real "
+        "determinant with every eigenvalue off the cut (the det < 0 rotation path of sqrtm); for logm, sqrtm and "
         "non-integer powm every eigenvalue has |arg| <= 135 degrees and modulus >= 1/16 (away from the branch cut and "
         "zero). So A has exactly representable entries at every p and f(A) = S f(B) S^-1 is known in closed form. "
         "Operations: expm with method taylor and pade, cosm+sinm, logm (+expm of the result), sqrtm, powm with integer "
@@ -29,14 +28,14 @@ RULE = ("Cases = (operation, precision p in 30..200, matrix A = S B S^-1 of size
         "diagonal class. A result of logm/sqrtm/powm that is a valid other branch (S^-1 X S diagonal with x_i^2 = d_i "
         "resp. exp(x_i) = d_i) is what the docstrings allow ('not unique') and is only counted (class branch). A case "
         "whose tolerance would exceed 2^-6 relative is inconclusive. After every call, also a failing one, mp.prec must be "
-        "p, the input matrix must be unchanged and the entries of the result finite. Failing calls may only raise "
-        "ZeroDivisionError or NoConvergence. Non-trivial = size >= 2 and S is not the identity (non-normal A), or a "
-        "failing call.")
+        "p, the input matrix must be unchanged and the entries of the result finite. Failing calls (size <= 4) may only "
+        "raise ZeroDivisionError or NoConvergence; they are interrupted after 1 s (mp.prec is then checked all the same), "
+        "and only for the zero matrix, where logm's reduction loop provably never ends, the interruption is reported "
+        "(bucket hang:logm:zero-matrix). Non-trivial = size >= 2 and S is not the identity (non-normal A), or a failing "
+        "call.")
 ASSUMPTIONS = ["exp, log, sqrt, cos, sin and complex powers of mpmath 1.3.0 scalars are accurate at 3p+100 bits",
                "the amplification of rounding errors by the similarity S is bounded by cond_inf(S) (first order)"]
 TECHNIQUE = "property-based testing (Hypothesis) with a constructed closed-form oracle plus the identities of the statement"
-
-OPS = ["exp", "trig", "log", "sqrt", "pow_int", "pow_frac", "fail"]
 
 
 def shards(tier):
